@@ -74,6 +74,7 @@ var pinned = []pinnedCase{
 	{Kind: "diff", Src: `\D|k|k`, Flags: "", Subj: us("k"), Comment: "regexp2: single-character alternatives merged into a set lose members when one of them is \\D"},
 	{Kind: "diff", Src: `\n|.|\n`, Flags: "", Subj: us("\n"), Comment: "regexp2: same set merge with '.' as the negated member"},
 	{Kind: "diff", Src: `B|[Bb]c`, Flags: "", Subj: us("bc"), Comment: "Go regexp/syntax: [Bb] becomes a case-folded literal and is factored with the plain literal B of the neighbouring alternative"},
+	{Kind: "diff", Src: `\b`, Flags: "g", Subj: []uint16{0xE9}, Mode: "own-exec-assign", Comment: "regexp2 Unicode \\b again: nullable patterns are iterated by regexp2 on the fast path, exec() from lastIndex 0 uses RE2, so \"\u00e9\".replace(/\\b/g,\"|\") differs between the optimised and the generic path (seeder's note)"},
 }
 
 func runPinned(c *core.Ctx, p pinnedCase) core.Result {
